@@ -87,7 +87,24 @@ def term_words(rng, structured):
     alpha = ["I", "sigma_x", "sigma_z", "sigma_+"]
     n = int(rng.integers(3, 6))
     words = set()
-    if structured:
+    if structured == 2:
+        # twins: t >= 3 left partial terms (one operator on one of the first t sites each) share exactly the same d = 2 right partners, and a few unrelated terms
+        # live on the right sites only, so the twins' side stays the smaller one: the minimum cover takes the d partners, not the t twins
+        t = int(rng.integers(3, 5))
+        n = t + 2
+        lop = alpha[int(rng.integers(1, 4))]
+        rops = [alpha[int(rng.integers(1, 4))] for _ in range(2)]
+        for i in range(t):
+            for j in range(2):
+                w = ["I"] * n
+                w[i] = lop
+                w[t + j] = rops[j]
+                words.add(tuple(w))
+        extra = [("sigma_z", "I"), ("I", "sigma_z"), ("sigma_z", "sigma_z"), ("sigma_x", "sigma_z"), ("sigma_+", "I")]
+        for a_, b_ in extra[: int(rng.integers(3, 6))]:
+            if (a_, b_) != (rops[0], "I") and (a_, b_) != ("I", rops[1]):
+                words.add(tuple(["I"] * t + [a_, b_]))
+    elif structured:
         # several local operators of the first site share ONE right partner while another one has several: fewer rows than columns, yet the rows violate
         # Hall's condition (the minimum cover keeps a complementary operator for the sharing rows)
         k, m = 2, int(rng.integers(3, 5))
@@ -117,7 +134,7 @@ def w_bonds(case, led):
     seed, chunk, per = case
     rng = np.random.default_rng([seed, chunk, 2020])
     for t in range(per):
-        n, words = term_words(rng, structured=(t % 3 == 0))
+        n, words = term_words(rng, structured=(1 if t % 4 == 0 else 2 if t % 4 == 2 else 0))
         terms = []
         for w in words:
             sym = " ".join(x for x in w if x != "I")
